@@ -12,7 +12,22 @@ How the database is opened is a per-run knob: the class constructor or the
 module-level dbm-style ``dirdbm.open(file, flag, mode)`` - a writable flag for the
 handle the history is written through, any contents-preserving flag (incl. "r")
 for the reopens after the crash.  Nothing is written through a handle opened "r".
+
+Two more families ride on the same enumeration.  REFUSED CALLS: each interposed call
+of the history is, in turn, refused with an OSError (errno is a per-run knob) instead
+of killing the process - the process lives on, so whatever the operation does on
+failure (its exception handlers) really runs; the operation did not complete, the
+process ends, and the reopened database must show old-or-new like after a crash.  In
+some runs every call of the recovery is refused in the same way (the reopen may
+fail; the next reopen is judged).  COPY: in some runs the database the history
+produced is copied with the public copyTo() to a second database (absent, empty, or
+holding entries under shared and other keys); every crash point / torn length /
+refused call of the copy is enumerated and the DESTINATION is judged like any other
+database ("cleared first", then filled: after recovery either every key holds what
+the destination held before or nothing, or every key holds the source's value or
+nothing); the source must be unchanged.
 """
+import errno
 import os
 
 from twisted.persisted import dirdbm
@@ -23,25 +38,37 @@ from detsim import fs as simfs
 ID = "C51"
 ENGINE = "fs"
 LEVEL = "fault_enumeration"
-TECHNIQUE = "deterministic simulation: crash at every interposed filesystem call (+ torn writes, nested crash during recovery) of seeded DirDBM histories vs in-memory map"
-QUICK_RUNS = 2400
+TECHNIQUE = "deterministic simulation: crash at every interposed filesystem call (+ torn writes, nested crash during recovery; each call also refused with OSError in a process that lives on; copyTo() as one more operation) of seeded DirDBM histories vs in-memory map"
+QUICK_RUNS = 1500
 BATCH = 10
-COMPONENTS = {"real": ["twisted.persisted.dirdbm.DirDBM/Shelf (__init__ recovery, __setitem__, __delitem__, __getitem__, keys)", "twisted.persisted.dirdbm.open (flag/mode variants)", "twisted.python.filepath.FilePath",
+COMPONENTS = {"real": ["twisted.persisted.dirdbm.DirDBM/Shelf (__init__ recovery, __setitem__, __delitem__, __getitem__, keys, copyTo/clear)", "twisted.persisted.dirdbm.open (flag/mode variants)", "twisted.python.filepath.FilePath",
                        "the real filesystem under a scratch directory (reads)"],
-              "stub": ["process/kernel boundary for mutating calls (detsim.fs interposer: crash points, torn writes, user-space buffer loss)"]}
+              "stub": ["process/kernel boundary for mutating calls (detsim.fs interposer: crash points, torn writes, user-space buffer loss, one call refused with a drawn errno)"]}
 RULE = ("run = one tape-drawn history of 1..7 set/replace/delete operations over <=4 keys with unique values (0 B..20 KiB) for which every crash point and torn-write "
         "length {0,1,len/2,len-1} is enumerated, each followed by reopen with a nested crash at every recovery crash point, a final reopen, comparison with the model map "
         "and 1-2 further operations; per run the handles are opened through the constructor or through dirdbm.open(file, flag in {-,c,w} for the writer / {-,r,w,c} "
-        "for every reopen, mode in {-,666,600}) (after a read-only reopen the further operations go through one more, writable, reopen); non-trivial = history contains a replace or delete and at least one nested recovery crash was exercised")
+        "for every reopen, mode in {-,666,600}) (after a read-only reopen the further operations go through one more, writable, reopen); every call of the history is also refused once with OSError (errno drawn per run "
+        "from EIO/EACCES/ENOSPC/EBUSY; the process lives on, the failed operation's own clean-up runs, then reopen and the same old-or-new verdict), in 35% of the runs every "
+        "call of each recovery too; in 30% of the runs the final database is copied with copyTo() to a second database (absent / empty / 1-3 entries under drawn keys) with every "
+        "crash point, torn length and refused call of the copy enumerated, the destination judged after recovery (nested crashes included) against {clearing under way, filling "
+        "under way} and the source against the model; non-trivial = history contains a replace or delete and at least one nested recovery crash was exercised")
 ASSUMPTIONS = ["process crash (not power loss): data handed to write() and completed renames/removes survive; rename() is atomic",
                "a crash loses everything still in the process's user-space file buffer",
                "one process uses the directory at a time (DirDBM's documented restriction)",
                "dirdbm.open(file, flag, mode): flags None/'r'/'w'/'c' open an existing database keeping its contents (dbm convention; documented as ignored), so a reopen "
                "with any of them is a reopen in the sense of the statement - also 'r': what a read-only handle shows is data.  'n' (always a new database) is not used. "
-               "A read-only handle is only read; leftover temporary files ON DISK are not judged after a read-only reopen (only what keys()/values/len() show)"]
-LEVEL_TEXT = ("Exhaustive enumeration of crash points (incl. torn writes and nested crashes during recovery) for each sampled operation history; histories are sampled by seed.")
+               "A read-only handle is only read; leftover temporary files ON DISK are not judged after a read-only reopen (only what keys()/values/len() show)",
+               "refused call: ONE interposed call raises OSError(errno) and has no effect; the process then ends normally after the failed operation (no further operations on "
+               "the live handle, which is not judged - the statement speaks about what a reopen yields).  A refused call is at least as benign as a crash at the same call, so "
+               "the crash verdict (old-or-new for the operation's key, nothing else touched, no partial value, no temporary after recovery) applies.  EXDEV is not drawn",
+               "copyTo(path) is documented as clearing an existing destination first and then copying the contents: it performs deletes, then sets, on the destination "
+               "database, in an unspecified key order.  So after a crash during the copy the destination is acceptable iff it is a state of the clearing phase (every key: its "
+               "previous value or absent) or of the filling phase (every key: the source's value or absent); nothing is demanded about how far the copy got"]
+LEVEL_TEXT = ("Exhaustive enumeration of crash points (incl. torn writes and nested crashes during recovery) for each sampled operation history; histories are sampled by seed.  Likewise every single refused call of the history (and, in a share of runs, of the recovery) and every crash point / refused call of a copyTo() of the result.")
 
 KEYS = [b"a", b"b", b"key/with/slash\nand newline", b"K" * 70]
+ERRNOS = [errno.EIO, errno.EACCES, errno.ENOSPC, errno.EBUSY]   # (not EXDEV: a rename inside one directory never crosses devices)
+COPY_P = 0.3
 
 
 def run(sim):
@@ -83,13 +110,32 @@ def run(sim):
         counter += 1
         k = KEYS[sim.draw_int(0, nkeys - 1, "key")]
         extra.append(("set", k, (counter, b"x%d" % counter) if shelf else b"x%d" % counter))
-    sim.config = {"shelf": shelf, "writer": _opener_name(writer), "reopener": _opener_name(reopener), "nkeys": nkeys, "ops": [(o, KEYS.index(k), None if v is None else (len(v[1]) if shelf else len(v))) for o, k, v in ops], "bufsize": bufsize}
-    sim.event("history", " ".join("%s%d" % (o, KEYS.index(k)) for o, k, v in ops), "shelf" if shelf else "dirdbm", "buf", bufsize, "writer", _opener_name(writer), "reopener", _opener_name(reopener))
+    # a refused call (OSError from one interposed call; the process lives on, the operation's failure path runs, then the
+    # process ends and the database is reopened) is injected at every call of the history - with which errno is a knob;
+    # in some runs also at every call of the recovery
+    err = sim.draw_choice(ERRNOS, "errno")
+    rec_errno = sim.draw_bool(0.35, "recovery_errno")
+    # copyTo(): in some runs the database the history produced is copied to a second database (absent / empty / holding
+    # entries under shared and other keys) with every crash point of the copy enumerated
+    copy = None
+    if sim.draw_bool(COPY_P, "copy"):
+        dest_kind = sim.draw_weighted([("filled", 4), ("absent", 1), ("empty", 1)], "copy_dest")
+        prepop = []
+        if dest_kind == "filled":
+            for k in sim.draw_perm(KEYS)[:sim.draw_int(1, 3, "copy_dest_keys")]:
+                counter += 1
+                size = sim.draw_choice([3, 40, 700, 5000], "copy_dest_size")
+                v = (b"p%d:" % counter) + sim.draw_blob(size)[:size]
+                prepop.append((k, (counter, v) if shelf else v))
+        copy = (dest_kind, prepop)
+    sim.config = {"errno": err, "recovery_errno": rec_errno, "copy": None if copy is None else [copy[0], [KEYS.index(k) for k, v in copy[1]]], "shelf": shelf, "writer": _opener_name(writer), "reopener": _opener_name(reopener), "nkeys": nkeys, "ops": [(o, KEYS.index(k), None if v is None else (len(v[1]) if shelf else len(v))) for o, k, v in ops], "bufsize": bufsize}
+    sim.event("history", " ".join("%s%d" % (o, KEYS.index(k)) for o, k, v in ops), "shelf" if shelf else "dirdbm", "buf", bufsize, "writer", _opener_name(writer), "reopener", _opener_name(reopener),
+              "errno", err, "rec_errno", int(rec_errno), "copy", "-" if copy is None else copy[0] + "".join("%d" % KEYS.index(k) for k, v in copy[1]))
     F = simfs.FS(sim, bufsize=bufsize)
     bindings = [(filepath, "os", "os"), (filepath, "open", "open"), (dirdbm, "os", "os"), (dirdbm, "_open", "open")]
     try:
         with simfs.Installed(F, bindings):
-            _enumerate(sim, F, shelf, ops, extra, writer, reopener)
+            _enumerate(sim, F, shelf, ops, extra, writer, reopener, err, rec_errno, copy)
     finally:
         F.destroy()
 
@@ -137,17 +183,19 @@ def _apply_model(m, op):
         m.pop(k, None)
 
 
-def _enumerate(sim, F, shelf, ops, extra, writer, reopener):
+def _enumerate(sim, F, shelf, ops, extra, writer, reopener, err, rec_errno, copy):
     cls, _ = _make_opener(sim, shelf, writer, "writer")           # handles the history is written through
     reopen, read_only = _make_opener(sim, shelf, reopener, "reopen")  # every reopen after a crash
     d = os.path.join(F.root, "db")
+    d2 = os.path.join(F.root, "db2")   # destination of copyTo()
 
     def wipe():
         F.reboot()
-        if os.path.isdir(d):
-            for n in os.listdir(d):
-                os.remove(os.path.join(d, n))
-            os.rmdir(d)
+        for x in (d, d2):
+            if os.path.isdir(x):
+                for n in os.listdir(x):
+                    os.remove(os.path.join(x, n))
+                os.rmdir(x)
 
     def apply_real(db, op):
         o, k, v = op
@@ -156,34 +204,130 @@ def _enumerate(sim, F, shelf, ops, extra, writer, reopener):
         else:
             del db[k]
 
-    def restore(snap):
+    def snapshot(x):
+        """None = the directory does not exist"""
+        return simfs.snapshot(x) if os.path.isdir(x) else None
+
+    def restore(x, snap):
         F.reboot()
-        for n in os.listdir(d):
-            os.remove(os.path.join(d, n))
-        for n, content in snap.items():
-            with open(os.path.join(d, n), "wb") as f:
+        if os.path.isdir(x):
+            for n in os.listdir(x):
+                os.remove(os.path.join(x, n))
+            if snap is None:
+                os.rmdir(x)
+        elif snap is not None:
+            os.mkdir(x)
+        for n, content in (snap or {}).items():
+            with open(os.path.join(x, n), "wb") as f:
                 f.write(content)
 
-    def inspect(db, allowed, wit, ctx):
-        """allowed: {key: set of acceptable values (None = absent)}"""
+    def inspect(db, x, alts, wit, ctx):
+        """alts: list of acceptable states, each {key: set of acceptable values (None = absent)} over one key universe;
+        the database must be in (at least) one of them"""
         try:
             keys = db.keys()
         except Exception as e:
             sim.fail("keys-raised", wit, "%s keys() raised %s: %s" % (ctx, type(e).__name__, str(e)[:120]))
         sim.check("keys-unique", len(keys) == len(set(keys)), wit, "%s keys() has duplicates" % ctx)
-        stray = sorted(k for k in keys if k not in allowed)
-        sim.check("no-stray-key", not stray, wit, lambda: "%s stray names visible as keys: %r; files=%r" % (ctx, stray[:3], sorted(os.listdir(d))))
-        for k, ok in sorted(allowed.items()):
+        stray = sorted(k for k in keys if k not in alts[0])
+        sim.check("no-stray-key", not stray, wit, lambda: "%s stray names visible as keys: %r; files=%r" % (ctx, stray[:3], sorted(os.listdir(x))))
+        got = {}
+        for k in sorted(alts[0]):
             if k in keys:
                 try:
-                    got = db[k]
+                    got[k] = db[k]
                 except Exception as e:
                     sim.fail("get-raised", wit, "%s db[%r] raised %s though listed in keys()" % (ctx, k[:8], type(e).__name__))
             else:
-                got = None
-            sim.check("value-of-last-completed-op", got in ok, wit,
-                      lambda: "%s key %r holds %s; acceptable: %s" % (ctx, k[:8], _d(got), [_d(x) for x in ok]))
+                got[k] = None
+        if not any(all(got[k] in ok for k, ok in alt.items()) for alt in alts):
+            # name the first key that fits none / not the best-fitting alternative
+            best = max(alts, key=lambda alt: sum(got[k] in ok for k, ok in alt.items()))
+            for k, ok in sorted(best.items()):
+                sim.check("value-of-last-completed-op", got[k] in ok, wit,
+                          lambda: "%s key %r holds %s; acceptable: %s%s" % (ctx, k[:8], _d(got[k]), [_d(y) for y in ok],
+                                                                             " (best of %d acceptable states)" % len(alts) if len(alts) > 1 else ""))
         sim.check("len-matches", len(db) == len(keys), wit, "%s len()=%d keys=%d" % (ctx, len(db), len(keys)))
+
+    counters = {"nested": 0}
+
+    def aftermath(x, alts, wit, ctx):
+        """The process is gone (crashed, or ended after an operation failed): the database in directory x is reopened
+        (recovery), with a nested crash - and in some runs a refused call - at every point of the recovery, judged against
+        the acceptable states, then used for a few more operations and reopened once more."""
+        F.reboot()
+        snap = snapshot(x)
+        # recovery, crash-free first (counts the recovery's crash points)
+        F.arm()
+        with sim.guard("recovery-raised", wit):
+            db2 = reopen(x)
+        rpoints = F.n
+        rplan = list(F.log)
+        inspect(db2, x, alts, wit, ctx + ", after recovery:")
+        # nested crash at every crash point of the recovery
+        for r in range(1, rpoints + 1):
+            restore(x, snap)
+            F.arm(crash_at=r)
+            try:
+                reopen(x)
+                sim.fail("crash-fired", "", "nested crash point %d did not fire" % r)
+            except simfs.SimCrash:
+                pass
+            sim.fault("nested_crash@" + rplan[r - 1][1])
+            counters["nested"] += 1
+            F.reboot()
+            F.arm()
+            with sim.guard("recovery-raised", wit + "+nested"):
+                db3 = reopen(x)
+            inspect(db3, x, alts, wit + "+nested", ctx + ", nested crash at recovery point %d (%s), after 2nd recovery:" % (r, rplan[r - 1][1]))
+            db2 = db3
+        # a call of the recovery is refused (OSError): the reopen may fail, the process lives on and ends; the next reopen recovers
+        if rec_errno:
+            for r in range(1, rpoints + 1):
+                restore(x, snap)
+                F.arm(errno_at=r, err=err)
+                try:
+                    reopen(x)
+                except simfs.SimCrash:
+                    raise
+                except Exception:
+                    sim.probe("recovery_refused_raised")
+                sim.check("errno-fired", F.crashed_op is not None, "", "refused recovery call %d did not fire" % r)
+                sim.fault("recovery_errno@" + rplan[r - 1][1])
+                F.reboot()
+                F.arm()
+                with sim.guard("recovery-raised", wit + "+recovery-refused"):
+                    db3 = reopen(x)
+                inspect(db3, x, alts, wit + "+recovery-refused", ctx + ", recovery call %d (%s) refused, after 2nd recovery:" % (r, rplan[r - 1][1]))
+                db2 = db3
+        # life goes on: further operations on the recovered database behave like a map
+        if read_only:
+            # nothing is written through a handle that was opened for reading only
+            with sim.guard("recovery-raised", wit):
+                db2 = cls(x)
+            inspect(db2, x, alts, wit, ctx + ", writable reopen after the read-only one:")
+        cur = {}
+        for k in sorted(alts[0]):
+            v = db2[k] if k in db2.keys() else None
+            if v is not None:
+                cur[k] = v
+        for op in extra:
+            with sim.guard("post-recovery-op-raised", wit):
+                apply_real(db2, op)
+            _apply_model(cur, op)
+        F.reboot()
+        with sim.guard("recovery-raised", wit):
+            db4 = reopen(x)
+        inspect(db4, x, [{k: {cur.get(k)} for k in alts[0]}], wit, ctx + ", after further ops and reopen:")
+        leftovers = [y for y in sorted(os.listdir(x)) if y.endswith(".new") or y.endswith(".rpl")]
+        # (a reopen for reading only promises what is visible as data, not what is on disk)
+        sim.check("no-temp-after-recovery", read_only or not leftovers, wit, "%s temporaries left after recovery: %r" % (ctx, leftovers))
+        sim.step(1000000)
+
+    def torn_lengths(opname, size):
+        if opname == "write" and size:
+            return [t for t in sorted(set([0, 1, size // 2, size - 1])) if 0 <= t < size]
+        return [0]
 
     universe = sorted(set(k for _, k, _ in ops) | set(k for _, k, _ in extra))
 
@@ -201,17 +345,15 @@ def _enumerate(sim, F, shelf, ops, extra, writer, reopener):
             apply_real(db, op)
         _apply_model(model, op)
         owner.extend([j] * (F.n - before))
-        inspect(db, {k: {model.get(k)} for k in universe}, "crash-free", "after op %d" % j)
+        inspect(db, d, [{k: {model.get(k)} for k in universe}], "crash-free", "after op %d" % j)
     plan = list(F.log)[base:]
     npoints = len(plan)
     sim.event("points", npoints, " ".join(p[1] for p in plan))
     sim.check("has-crash-points", npoints >= 1, "", "no mutating call seen")
-    nested_done = 0
+    F.reboot()
+    src_snap = snapshot(d)   # the database after the whole history (source of the copy below)
     for idx, (n, opname, rel, size) in enumerate(plan):
         j = owner[idx]
-        torns = [0]
-        if opname == "write" and size:
-            torns = [t for t in sorted(set([0, 1, size // 2, size - 1])) if 0 <= t < size]
         m_old = {}
         for op in ops[:j]:
             _apply_model(m_old, op)
@@ -221,7 +363,7 @@ def _enumerate(sim, F, shelf, ops, extra, writer, reopener):
         allowed = {k: {m_old.get(k)} for k in universe}
         allowed[ik] = {m_old.get(ik), m_new.get(ik)}
         wit = "%s@%s" % ("replace" if (ops[j][0] == "set" and ik in m_old) else ops[j][0], opname)
-        for torn in torns:
+        for torn in torn_lengths(opname, size):
             wipe()
             F.arm()
             db = cls(d)
@@ -236,59 +378,106 @@ def _enumerate(sim, F, shelf, ops, extra, writer, reopener):
             sim.fault("crash@" + opname)
             if torn:
                 sim.fault("torn_write")
-            F.reboot()
-            snap = simfs.snapshot(d)
-            # recovery, crash-free first (counts the recovery's crash points)
-            F.arm()
-            with sim.guard("recovery-raised", wit):
-                db2 = reopen(d)
-            rpoints = F.n
-            rplan = list(F.log)
-            ctx = "crash at %d/%d (%s %s torn=%d) in op %d" % (n - base, npoints, opname, rel, torn, j)
-            inspect(db2, allowed, wit, ctx + ", after recovery:")
-            # nested crash at every crash point of the recovery
-            for r in range(1, rpoints + 1):
-                restore(snap)
-                F.arm(crash_at=r)
-                try:
-                    reopen(d)
-                    sim.fail("crash-fired", "", "nested crash point %d did not fire" % r)
-                except simfs.SimCrash:
-                    pass
-                sim.fault("nested_crash@" + rplan[r - 1][1])
-                nested_done += 1
-                F.reboot()
-                F.arm()
-                with sim.guard("recovery-raised", wit + "+nested"):
-                    db3 = reopen(d)
-                inspect(db3, allowed, wit + "+nested", ctx + ", nested crash at recovery point %d (%s), after 2nd recovery:" % (r, rplan[r - 1][1]))
-                db2 = db3
-            # life goes on: further operations on the recovered database behave like a map
-            if read_only:
-                # nothing is written through a handle that was opened for reading only
-                with sim.guard("recovery-raised", wit):
-                    db2 = cls(d)
-                inspect(db2, allowed, wit, ctx + ", writable reopen after the read-only one:")
-            cur = {}
-            for k in universe:
-                v = db2[k] if k in db2.keys() else None
-                if v is not None:
-                    cur[k] = v
-            for op in extra:
-                with sim.guard("post-recovery-op-raised", wit):
-                    apply_real(db2, op)
-                _apply_model(cur, op)
-            F.reboot()
-            with sim.guard("recovery-raised", wit):
-                db4 = reopen(d)
-            inspect(db4, {k: {cur.get(k)} for k in universe}, wit, ctx + ", after further ops and reopen:")
-            leftovers = [x for x in sorted(os.listdir(d)) if x.endswith(".new") or x.endswith(".rpl")]
-            # (a reopen for reading only promises what is visible as data, not what is on disk)
-            sim.check("no-temp-after-recovery", read_only or not leftovers, wit, "%s temporaries left after recovery: %r" % (ctx, leftovers))
-            sim.step(1000000)
+            aftermath(d, [allowed], wit, "crash at %d/%d (%s %s torn=%d) in op %d" % (n - base, npoints, opname, rel, torn, j))
+        # the same call is REFUSED instead (OSError): the process lives on - whatever clean-up the operation does on
+        # failure runs - and then ends; the operation did not complete, so its key holds old or new after the reopen
+        wipe()
+        F.arm()
+        db = cls(d)
+        F.arm(errno_at=n - base, err=err)
+        raised = None
+        for jj, op in enumerate(ops[:j + 1]):
+            try:
+                apply_real(db, op)
+            except simfs.SimCrash:
+                raise
+            except Exception as e:
+                raised = jj
+                break
+        sim.check("errno-fired", F.crashed_op is not None and raised in (None, j), "", "refused call %d did not fire in op %d (raised in %r)" % (n, j, raised))
+        sim.fault("errno@" + opname)
+        if raised is not None:
+            sim.probe("refused_op_raised")
+        aftermath(d, [allowed], wit + "+refused", "call %d/%d (%s %s) refused with errno %d in op %d" % (n - base, npoints, opname, rel, err, j))
+
+    if copy is not None:
+        _copy_campaign(sim, F, cls, reopen, d, d2, src_snap, model, universe, copy, err, snapshot, restore, inspect, aftermath, torn_lengths, apply_real)
     kinds = set((o, k in [kk for oo, kk, vv in ops[:i]]) for i, (o, k, v) in enumerate(ops))
-    sim.nontrivial = nested_done > 0 and any(o == "del" or seen for o, seen in kinds)
-    sim.state((shelf, len(ops), npoints > 8))
+    sim.nontrivial = counters["nested"] > 0 and any(o == "del" or seen for o, seen in kinds)
+    sim.state((shelf, len(ops), npoints > 8, copy is not None))
+
+
+def _copy_campaign(sim, F, cls, reopen, d, d2, src_snap, model, universe, copy, err, snapshot, restore, inspect, aftermath, torn_lengths, apply_real):
+    """copyTo(path) as one more operation: documented as "copy the contents of this dirdbm to the dirdbm at path; if a
+    dirdbm exists at the destination path, it is cleared first" - i.e. a series of deletes and then of sets performed on
+    the destination database, which is a database like any other: after a crash (or a refused call) at any point of the
+    copy and a reopen of the destination, either the clearing was still under way (every key holds what the destination
+    held before, or nothing) or the filling was (every key holds the source's value, or nothing); never a partial value, a
+    stray name or a leftover temporary.  The source is not changed by being copied."""
+    dest_kind, prepop = copy
+    sim.probe("copy_dest_" + dest_kind)
+    # the destination as it is before the copy
+    restore(d2, None)
+    if dest_kind != "absent":
+        F.arm()
+        with sim.guard("crash-free-raised"):
+            dst = cls(d2)
+            for k, v in prepop:
+                dst[k] = v
+    F.reboot()
+    dst_snap = snapshot(d2)
+    before = dict(prepop)
+    uni2 = sorted(set(universe) | set(before))
+    clearing = {k: {before.get(k), None} for k in uni2}
+    filling = {k: {model.get(k), None} for k in uni2}
+    exact = {k: {model.get(k)} for k in uni2}
+    src_exact = [{k: {model.get(k)} for k in uni2}]
+
+    def fresh():
+        restore(d, src_snap)
+        restore(d2, dst_snap)
+        F.arm()
+        src = cls(d)
+        return src
+
+    # crash-free copy
+    src = fresh()
+    base = F.n
+    with sim.guard("crash-free-raised"):
+        dst = src.copyTo(d2)
+    plan = list(F.log)[base:]
+    inspect(dst, d2, [exact], "crash-free", "destination after copyTo:")
+    inspect(src, d, src_exact, "crash-free", "source after copyTo:")
+    sim.event("copy-points", len(plan), " ".join(p[1] for p in plan))
+    for n, opname, rel, size in plan:
+        wit = "copy@" + opname
+        for torn in torn_lengths(opname, size):
+            src = fresh()
+            F.arm(crash_at=n - base, torn=torn)
+            crashed = False
+            try:
+                src.copyTo(d2)
+            except simfs.SimCrash:
+                crashed = True
+            sim.check("crash-fired", crashed, "", "crash point %d of the copy did not fire" % n)
+            sim.fault("copy_crash@" + opname)
+            ctx = "crash at %d/%d (%s %s torn=%d) in copyTo" % (n - base, len(plan), opname, rel, torn)
+            F.reboot()
+            with sim.guard("recovery-raised", wit):
+                again = reopen(d)
+            inspect(again, d, src_exact, wit, ctx + ", the SOURCE reopened:")
+            aftermath(d2, [clearing, filling], wit, ctx + ", destination")
+        src = fresh()
+        F.arm(errno_at=n - base, err=err)
+        try:
+            src.copyTo(d2)
+        except simfs.SimCrash:
+            raise
+        except Exception:
+            sim.probe("refused_copy_raised")
+        sim.check("errno-fired", F.crashed_op is not None, "", "refused call %d of the copy did not fire" % n)
+        sim.fault("copy_errno@" + opname)
+        aftermath(d2, [clearing, filling], wit + "+refused", "call %d/%d (%s %s) of copyTo refused with errno %d, destination" % (n - base, len(plan), opname, rel, err))
 
 
 def _d(x):
@@ -300,6 +489,11 @@ def _d(x):
 
 
 MUTANTS = [
+    "seeded C51-r5a: __setitem__'s handler covers remove-old and rename too and deletes the temporary -> caught quick (value-of-last-completed-op:replace@rename+refused) by the refused-call family; invisible to crashes (a dead process runs no handler)",
+    "seeded C51-r5b: copyTo() copies entry files straight to their final names -> caught quick (value-of-last-completed-op:copy@write, get-raised:copy@write for Shelf) by the copy family",
+    "recovery: a refused rename of a lone .rpl is answered by removing it (try: os.rename(f, old) except OSError: os.remove(f)) -> caught quick (value-of-last-completed-op:replace@rename+recovery-refused)",
+    "copyTo() without d.clear() -> caught quick (value-of-last-completed-op:crash-free: destination-only keys survive the copy)",
+    "copyTo() writing each value with _writeFile straight to the entry's final name -> caught quick (value-of-last-completed-op:copy@write / get-raised:copy@write)",
     "seeded C51-r4b: dirdbm.open(file, 'r') skips the recovery in DirDBM.__init__ -> caught quick (get-raised:set@write, get-raised:set@rename) via the reopener knob",
     "dirdbm.open() builds the DirDBM without running __init__'s recovery (any flag) -> caught quick (get-raised:set@write / set@rename)",
     "dirdbm.open(file, 'w') returns a Shelf when a .new file is left behind (wrong class for a flag) -> caught quick (value-of-last-completed-op:set@write)",
